@@ -373,7 +373,7 @@ KINDS = ['gen', 'int', 'grad4', 'grad8', 'illc6', 'illc8', 'duprow', 'zerorow', 
 def _cases(tier, seed):
     rs = [1, 2, 3] if tier == 'quick' else [1, 2, 3, 4]
     up = 4 if tier == 'quick' else 6
-    es = [1.01, 1.05, 1.5, 2.0] if tier == 'quick' else [1.01, 1.02, 1.05, 1.1, 1.5, 2.0, 3.0]
+    es = [1.0, 1.01, 1.05, 1.5, 2.0] if tier == 'quick' else [1.0, 1.01, 1.02, 1.05, 1.1, 1.5, 2.0, 3.0]      # e = 1 exactly: the tolerance at its limit
     tagsv = [0] if tier == 'quick' else [0, 1, 2]
     out = []
     for r in rs:
